@@ -174,7 +174,7 @@ impl Property for C05 {
         floors.push(("epilogue_idle_checks".into(), 100));
         Meta {
             level: "exploration",
-            rule: "sessions of the real client against the simulated MPD server on a paused-clock current-thread runtime with seeded select!: 34 directed scenarios x variants (incl. write back-pressure, a dropped events receiver, an events receiver the application keeps but does not poll while 150-600 changes pile up, a transport whose shutdown never completes) + bounded-exhaustive timing grids (request at 50..70 ms x notification at 50..70 ms at 1 ms resolution x wire latency x idle-reply chopping; second request and notification at -5..+5 ms around the end of the re-idle window) x select! seeds (aimed at: request between/inside the chunks of an idle reply, noidle crossing a server-initiated idle reply, both select! branches ready, think times D-1/D/D+1 around the re-idle delay, queued callers, cancellation, multi-change replies, failing lists, byte-wise reads) + seeded random scenarios (1-6 callers, <=40 requests, raw commands/lists/pipelining/cancellation, reply and wire latencies, chopped replies, read caps, spurious Pending, write granularity, notification schedules); oracle: every request unit the client writes is judged against what had been COMPLETELY DELIVERED to it (<=1 outstanding; only noidle while one idle is outstanding), the server must never receive anything but noidle while waiting in idle, first line idle/password, bounded re-idle (no request in [t, t+D] => idle written by t+D+1s), epilogue (server in idle after a quiet period, probe notification delivered); non-trivial = session in which request/notification/timer/cancellation overlapped (P1,P2,P6,P7,P9,P12); distinct by interleaving signature of the boundary log".into(),
+            rule: "sessions of the real client against the simulated MPD server on a paused-clock current-thread runtime with seeded select!: 35 directed scenarios x variants (incl. write back-pressure, a dropped events receiver, an events receiver the application keeps but does not poll while 150-600 changes pile up, a transport whose shutdown never completes) + bounded-exhaustive timing grids (request at 50..70 ms x notification at 50..70 ms at 1 ms resolution x wire latency x idle-reply chopping; second request and notification at -5..+5 ms around the end of the re-idle window) x select! seeds (aimed at: request between/inside the chunks of an idle reply, noidle crossing a server-initiated idle reply, both select! branches ready, think times D-1/D/D+1 around the re-idle delay, queued callers, cancellation, multi-change replies, failing lists, byte-wise reads) + seeded random scenarios (1-6 callers, <=40 requests, raw commands/lists/pipelining/cancellation, reply and wire latencies, chopped replies, read caps, spurious Pending, write granularity, notification schedules); oracle: every request unit the client writes is judged against what had been COMPLETELY DELIVERED to it (<=1 outstanding; only noidle while one idle is outstanding), the server must never receive anything but noidle while waiting in idle, first line idle/password, bounded re-idle (no request in [t, t+D] => idle written by t+D+1s), epilogue (server in idle after a quiet period, probe notification delivered); non-trivial = session in which request/notification/timer/cancellation overlapped (P1,P2,P6,P7,P9,P12); distinct by interleaving signature of the boundary log".into(),
             nontrivial_set: "nontrivial",
             assumptions: vec![
                 "simulated server implements MPD's idle rules (client/Process.cxx): noidle outside idle is ignored without reply; anything else during idle is a protocol violation".into(),
